@@ -63,7 +63,7 @@ def main():
             r = subprocess.run([os.path.join(V, "check"), prop, "--tier", tier], env=env, text=True, capture_output=True, cwd=V)
             txt = r.stdout + r.stderr
             viol = re.findall(r"VIOLATION property=\S+ replay=\S+", txt)
-            cls = re.findall(r"^\s+class=(\S+) seed=\d+ ops=(\d+) trace_entries=(\d+)", txt, re.M)
+            cls = re.findall(r"^\s+class=(\S+) seed=\d+ ops=(\d+) trace_entries=(\S+)", txt, re.M)
             kf = len(re.findall(r"^KNOWN-FINDING", txt, re.M))
             summ = re.findall(r"\[check\] \S+ \S+: (runs=.*)", txt)
             res = {"id": m["id"], "prop": prop, "rc": r.returncode, "detected": bool(viol) and r.returncode == 1,
